@@ -484,7 +484,7 @@ func TestC48(t *testing.T) {
 			jser = append(jser, x.jser...)
 			jreq = append(jreq, x.jreq...)
 		}
-		res, log, dry, err := rewrite(dir, cs, relabelKind, caseID%4 == 1)
+		res, log, dry, err := rewrite(dir, cs, relabelKind, caseID%6 == 1)
 		got := map[string]any{"err": "", "series": []any{}, "log": log}
 		if err != nil {
 			got["err"] = err.Error()
@@ -554,7 +554,7 @@ func TestC48(t *testing.T) {
 		}
 	}
 	groupRelabel = "none"
-	for i, n := 0, vt.Pick(400, 2000); i < n; i++ {
+	for i, n := 0, vt.Pick(300, 2000); i < n; i++ {
 		add(randCase(rnd, false), 10)
 	}
 	flush()
@@ -566,7 +566,7 @@ func TestC48(t *testing.T) {
 		flush()
 	}
 	groupRelabel = "none"
-	for i, n := 0, vt.Pick(20, 100); i < n; i++ {
+	for i, n := 0, vt.Pick(10, 100); i < n; i++ {
 		add(randCase(rnd, true), 1)
 	}
 	flush()
